@@ -12,6 +12,9 @@
 (*   snd, rcv   "d" (dulwich) | "g" (C git): who sent / who received       *)
 (*   sstore, srefs   sender's store and advertised ref values (push: the   *)
 (*          values the pusher was asked to send)                           *)
+(*   sshal  the sender's own .git/shallow (the sender is a shallow clone);  *)
+(*          an info/grafts file of the sender is not part of the trace:    *)
+(*          the parents of a commit are the ones written in the commit     *)
 (*   r0, rtips0, shal0   receiver's store, ref values and .git/shallow     *)
 (*          before                                                         *)
 (*   r1, rtips1, shal1   ... after (projected from the directory by a      *)
@@ -117,7 +120,7 @@ Judge(t) ==
         cap     == t.cap = 1
         shal0   == SeqSet(t.shal0)
         shal1   == SeqSet(t.shal1)
-        shallow == t.depth > 0 \/ shal0 # {} \/ shal1 # {}
+        shallow == t.depth > 0 \/ shal0 # {} \/ shal1 # {} \/ t.sshal # <<>>
         wcl     == Closure(U, wants)
         wcut    == ClosureCut(U, shal1, wants)
         tagrefs == {g \in srefs : Kind(g) = "g"}
@@ -138,7 +141,7 @@ Judge(t) ==
             ELSE IF t.gitok = 0 THEN "Identity.git"
             ELSE "ok"
         clause ==
-            IF ~Closed(U, sstore) \/ ~ClosedCut(U, shal0, r0) \/ ~(ClosureCut(U, shal0, SeqSet(t.rtips0)) \subseteq r0)
+            IF ~ClosedCut(U, SeqSet(t.sshal), sstore) \/ ~ClosedCut(U, shal0, r0) \/ ~(ClosureCut(U, shal0, SeqSet(t.rtips0)) \subseteq r0)
                \/ ~(srefs \subseteq sstore) THEN "Antecedent"
             ELSE IF sndClause # "ok" THEN (IF t.snd = "g" THEN "SpecVsGit:" \o sndClause ELSE sndClause)
             \* a request for an object that no advertised ref reaches was served
